@@ -9,6 +9,10 @@ Bad(ev) == {i \in 1..Len(ev.leaves) : ~LeafOk(ev.leaves[i])}
 Ok(ev) == Bad(ev) = {}
 First(ev) == ev.leaves[CHOOSE i \in Bad(ev) : \A j \in Bad(ev) : i <= j]
 
+(* the judged keys, printed for the evidence file (the engine counts the     *)
+(* distinct leaves of exactly these keys)                                   *)
+ASSUME PrintT(<<"JUDGED", JudgedKeys>>)
+
 VARIABLE l
 Init == l = 1
 Next == /\ l <= NRec
